@@ -141,11 +141,25 @@ def XF.smallInt? : XF → Option Int
         if v > 4096 then none else some (if n then -(v : Int) else v)
   | _ => none
 
+/-- `some odd` when the finite value is an integer -/
+def XF.intParity? : XF → Option Bool
+  | .fin _ m e =>
+    if m = 0 then some false
+    else if e ≥ 0 then some (e == 0 && m % 2 == 1)
+    else
+      let sh := (-e).toNat
+      if sh ≥ 64 then none
+      else if m % (2 ^ sh) != 0 then none
+      else some ((m >>> sh) % 2 == 1)
+  | _ => none
+
 def unknownF (salt : Nat) : XF :=
   match salt with
   | 0 => mk false 3 0
   | 1 => mk true 1 70
-  | _ => mk false 1 (-70)
+  | 2 => mk false 1 (-70)
+  | 3 => .fin false 0 0
+  | _ => .nan true
 
 def XF.isOne : XF → Bool
   | .fin false m e => m == 9223372036854775808 && e == -63
@@ -174,13 +188,23 @@ def XF.pow (salt : Nat) (x y : XF) : XF :=
     match x, y with
     | .nan n, _ => .nan n
     | _, .nan n => .nan n
-    | .fin xn xm _, .fin yn _ ye =>
-      -- a finite y that is not a small integer; it is non-integral iff it has bits below the binary point
-      let nonInt := ye < 0 && (match y with | .fin _ m e => e ≤ -64 || m % (2 ^ (-e).toNat) != 0 | _ => false)
-      if !nonInt then unknownF salt
-      else if xm = 0 then (if yn then .inf false else .fin false 0 0)
-      else if xn then .nan true
-      else unknownF salt
+    | .fin xn xm xe, .fin yn _ ye =>
+      -- a finite y that is not a small integer
+      match y.intParity? with
+      | none =>
+        -- non-integral exponent
+        if xm = 0 then (if yn then .inf false else .fin false 0 0)
+        else if xn then .nan true
+        else unknownF salt
+      | some odd =>
+        -- integral exponent of large magnitude
+        let sg := xn && odd
+        if xm = 0 then (if yn then .inf sg else .fin sg 0 0)
+        else if ye + 63 < 16 then unknownF salt          -- |y| < 65536: the result may still be finite
+        else if xe + 63 ≥ 1 then (if yn then .fin sg 0 0 else .inf sg)                         -- |x| >= 2
+        else if xe + 64 ≤ -1 || (xe + 63 == -1 && xm == 9223372036854775808) then               -- |x| <= 1/2
+          (if yn then .inf sg else .fin sg 0 0)
+        else unknownF salt
     | .inf xn, .fin yn _ _ => if xn then unknownF salt else (if yn then .fin false 0 0 else .inf false)
     | _, _ => unknownF salt
 
@@ -719,7 +743,9 @@ def step (_ : Unit) (line : String) : Unit × String :=
       let a := runCase 0 variant p
       let b := runCase 1 variant p
       let c := runCase 2 variant p
-      ((), if a == b && a == c then a else "?" ++ a)
+      let d := runCase 3 variant p
+      let e := runCase 4 variant p
+      ((), if a == b && a == c && a == d && a == e then a else "?" ++ a)
     | _ => ((), "bad-case")
   | [] => ((), "bad-case")
 
